@@ -1,17 +1,117 @@
-// C18 link probe (regression for D11, fixed 72143ee): the timed waits of yaclib_std::condition_variable that return
-// std::cv_status call `CVStatusFrom`; it was declared `constexpr` (hence inline) in
-// include/yaclib/fault/detail/condition_variable.hpp and defined only in src/fault/condition_variable.cpp, so every program
-// that called them failed to link under YACLIB_FAULT != OFF.  This file must compile and link.
+// C18 link probe: every public member of every yaclib_std lock / condition variable / thread type, in every overload, with a
+// deadline of each yaclib_std::chrono clock, must compile AND link under the FIBER backend.  (Regression for D11, fixed 72143ee:
+// the cv_status-returning timed waits of condition_variable called a `constexpr` CVStatusFrom that was defined only in a .cpp.)
+// The program is only built, never run.  native_handle() is probed separately (harness/c18_link_nh.cpp, D15).
 #include <chrono>
 #include <mutex>
+#include <shared_mutex>
+#include <yaclib_std/chrono>
 #include <yaclib_std/condition_variable>
 #include <yaclib_std/mutex>
+#include <yaclib_std/shared_mutex>
+#include <yaclib_std/thread>
+#include <yaclib_std/thread_local>
+
+static YACLIB_THREAD_LOCAL_PTR(int) tls_a;
+static int slot;
+static YACLIB_THREAD_LOCAL_PTR(int) tls_b{&slot};
+
+template <typename M>
+int Plain(M& m) {
+  m.lock();
+  m.unlock();
+  int r = m.try_lock() ? 1 : 0;
+  if (r) m.unlock();
+  return r;
+}
+
+template <typename M>
+int Timed(M& m) {
+  using namespace std::chrono_literals;
+  int r = 0;
+  if (m.try_lock_for(1ns)) { ++r; m.unlock(); }
+  if (m.try_lock_for(std::chrono::milliseconds{1})) { ++r; m.unlock(); }
+  if (m.try_lock_until(yaclib_std::chrono::steady_clock::now() + 1ns)) { ++r; m.unlock(); }
+  if (m.try_lock_until(yaclib_std::chrono::system_clock::now() + 1ns)) { ++r; m.unlock(); }
+  if (m.try_lock_until(yaclib_std::chrono::high_resolution_clock::now() + 1ns)) { ++r; m.unlock(); }
+  return r;
+}
+
+template <typename M>
+int Shared(M& m) {
+  m.lock_shared();
+  m.unlock_shared();
+  int r = m.try_lock_shared() ? 1 : 0;
+  if (r) m.unlock_shared();
+  return r;
+}
+
+template <typename M>
+int SharedTimed(M& m) {
+  using namespace std::chrono_literals;
+  int r = 0;
+  if (m.try_lock_shared_for(1ns)) { ++r; m.unlock_shared(); }
+  if (m.try_lock_shared_until(yaclib_std::chrono::steady_clock::now() + 1ns)) { ++r; m.unlock_shared(); }
+  if (m.try_lock_shared_until(yaclib_std::chrono::system_clock::now() + 1ns)) { ++r; m.unlock_shared(); }
+  if (m.try_lock_shared_until(yaclib_std::chrono::high_resolution_clock::now() + 1ns)) { ++r; m.unlock_shared(); }
+  return r;
+}
 
 int main() {
+  using namespace std::chrono_literals;
   yaclib_std::mutex m;
+  yaclib_std::timed_mutex tm;
+  yaclib_std::recursive_mutex rm;
+  yaclib_std::recursive_timed_mutex rtm;
+  yaclib_std::shared_mutex sm;
+  yaclib_std::shared_timed_mutex stm;
   yaclib_std::condition_variable cv;
-  std::unique_lock lock{m};
-  auto a = cv.wait_for(lock, std::chrono::nanoseconds{1});
-  auto b = cv.wait_until(lock, yaclib_std::chrono::steady_clock::now());
-  return a == b ? 0 : 1;
+  int r = Plain(m) + Plain(tm) + Plain(rm) + Plain(rtm) + Plain(sm) + Plain(stm);
+  r += Timed(tm) + Timed(rtm) + Timed(stm);
+  r += Shared(sm) + Shared(stm) + SharedTimed(stm);
+  {
+    std::unique_lock lock{m};
+    bool flag = true;
+    auto pred = [&] { return flag; };
+    cv.notify_one();
+    cv.notify_all();
+    cv.wait(lock, pred);
+    auto a = cv.wait_for(lock, 1ns);
+    bool b = cv.wait_for(lock, 1ns, pred);
+    auto c = cv.wait_until(lock, yaclib_std::chrono::steady_clock::now());
+    auto d = cv.wait_until(lock, yaclib_std::chrono::system_clock::now());
+    auto e = cv.wait_until(lock, yaclib_std::chrono::high_resolution_clock::now());
+    bool f = cv.wait_until(lock, yaclib_std::chrono::steady_clock::now(), pred);
+    bool g = cv.wait_until(lock, yaclib_std::chrono::system_clock::now(), pred);
+    bool h = cv.wait_until(lock, yaclib_std::chrono::high_resolution_clock::now(), pred);
+    r += (a == c) + (d == e) + b + f + g + h;
+    if (r < 0) cv.wait(lock);
+  }
+  {
+    std::shared_lock s1{sm};
+    std::shared_lock s2{stm, 1ns};
+    std::unique_lock u1{tm, 1ns};
+    std::scoped_lock u2{m, rm};
+    r += s1.owns_lock() + s2.owns_lock() + u1.owns_lock();
+  }
+  yaclib_std::thread t{[&] {
+    tls_a = &slot;
+    // (the proxy has no conversion to `int*`: portable code reads through * -> [] bool == !=)
+    r += (tls_a == tls_b) + (tls_a != tls_b) + (tls_a == &slot) + (tls_a ? *tls_a + tls_a[0] : 0);
+    tls_b = tls_a;
+    tls_a = nullptr;
+    yaclib_std::this_thread::yield();
+    yaclib_std::this_thread::sleep_for(1ns);
+    yaclib_std::this_thread::sleep_until(yaclib_std::chrono::steady_clock::now() + 1ns);
+    yaclib_std::this_thread::sleep_until(yaclib_std::chrono::system_clock::now() + 1ns);
+    yaclib_std::this_thread::sleep_until(yaclib_std::chrono::high_resolution_clock::now() + 1ns);
+    (void)yaclib_std::this_thread::get_id();
+  }};
+  (void)t.get_id();
+  (void)t.joinable();
+  (void)yaclib_std::thread::hardware_concurrency();
+  t.join();
+  yaclib_std::thread t2{[] {}};
+  t2.detach();
+  return r;
 }
